@@ -16,9 +16,33 @@ pub struct RawFault;
 pub struct SimRawMutex(AtomicU8);
 pub struct SimRawRwLock(AtomicU8);
 
+thread_local! {
+    /// recording mode (used outside the simulated threads, for locks that are not part of the
+    /// world): every operation succeeds at once and is appended here as (address, operation)
+    pub static RECORD: std::cell::RefCell<Option<Vec<(usize, RawOp)>>> = const { std::cell::RefCell::new(None) };
+}
+
+/// run `f` with this thread's raw lock operations recorded instead of simulated
+pub fn recording<T>(f: impl FnOnce() -> T) -> (T, Vec<(usize, RawOp)>) {
+    RECORD.with(|r| *r.borrow_mut() = Some(Vec::new()));
+    let out = f();
+    let seq = RECORD.with(|r| r.borrow_mut().take()).unwrap_or_default();
+    (out, seq)
+}
+
 #[inline(never)]
 fn op(mirror: &AtomicU8, op: RawOp) -> bool {
     let addr = mirror as *const _ as usize;
+    let recorded = RECORD.with(|r| match r.borrow_mut().as_mut() {
+        Some(v) => {
+            v.push((addr, op));
+            true
+        }
+        None => false,
+    });
+    if recorded {
+        return true;
+    }
     let s = match sched::cur() {
         Some(s) => s,
         None => panic!("happysim: raw lock op {:?} with no world installed", op),
@@ -33,6 +57,9 @@ fn op(mirror: &AtomicU8, op: RawOp) -> bool {
 }
 
 fn dropped(mirror: &AtomicU8) {
+    if RECORD.with(|r| r.borrow().is_some()) {
+        return;
+    }
     if let Some(s) = sched::cur() {
         s.check_mirror(mirror as *const _ as usize, mirror.load(Ordering::Relaxed), "when it was dropped");
     }
